@@ -1,3 +1,4 @@
+import PyseqmVerif.Properties.Census
 import PyseqmVerif.Model.Validate
 import Mathlib.Tactic.Common
 /-!
